@@ -47,6 +47,15 @@ EXHAUSTIVE = {"quick": False, "thorough": False}
 CIDS = ["A", "B", "C", "D", "E"]
 
 
+# contest identifiers that are falsy, numeric-looking, differ only in case / blanks, or contain one another (round 9)
+CID_FAMILIES = [["0", "", "a", "A", "aa"], ["1", "01", "10", " 1", "1.0"]]
+
+
+def _cids(rng, ncon):
+    fam = CIDS if not rng.chance(0.15) else rng.choice(CID_FAMILIES)
+    return list(fam[:ncon])
+
+
 # ------------------------------------------------------------------------------------------------
 # building real objects
 
@@ -622,7 +631,7 @@ def _size_path(rng, avail, nr):
 def gen_rounds(rng, n=None, ncon=None, nr=None, malformed=None):
     n = n or rng.choice([1, 2, 3, 4, 5, 6, 8, 10, 15, 25, 40])
     ncon = ncon or rng.randint(1, 5)
-    cids = CIDS[:ncon]
+    cids = _cids(rng, ncon)
     if rng.chance(0.3):
         cids = list(cids); rng.shuffle(cids)
     nr = nr or rng.randint(1, 4)
@@ -703,7 +712,7 @@ def gen_exhaustive(rng, maxn):
 def gen_cs(rng):
     n = rng.choice([1, 2, 3, 5, 8, 12])
     ncon = rng.randint(1, 4)
-    cids = CIDS[:ncon]
+    cids = _cids(rng, ncon)
     cards = _cards(rng, n, cids, rng.choice(["small", "pos", "ties", "close"]))
     cons = []
     for c in cids:
@@ -737,7 +746,7 @@ def gen_renumber(rng):
     'sampled': True (a reloaded list) and stale numbers"""
     n = rng.choice([1, 2, 3, 4, 5, 6, 8, 12, 20])
     ncon = rng.randint(1, 3)
-    cids = CIDS[:ncon]
+    cids = _cids(rng, ncon)
     cards = _cards(rng, n, cids, "small")
     via = rng.choice(["ctor", "from_dict", "from_dict"])
     preset = rng.choice(["none", "none", "some", "all"])
